@@ -51,17 +51,39 @@ LANG_PREDECL = {"c": set(C_PREDECLARED), "cpp": set(CPP_PREDECLARED), "js": set(
 
 
 
+def decorated(n):
+    """spellings that a backend's identifier normalisation (camel-casing strips underscores and lowers the first letter) maps
+    back onto the reserved word: `_default`, `default_`, `Default`"""
+    return ["_" + n, n + "_", n[0].upper() + n[1:]]
+
+
+def _undecorate(name):
+    b = name.strip("_")
+    return b[0].lower() + b[1:] if b else b
+
+
 def universe():
     """sorted list of all candidate names"""
     s = set()
     for l in (C_KEYWORDS, CPP_KEYWORDS, JS_KEYWORDS, C_PREDECLARED, CPP_PREDECLARED, JS_PREDECLARED):
         s.update(l)
+    for n in JS_KEYWORDS:
+        s.update(decorated(n))
     return sorted(s)
 
 
 def name_class(lang, name):
-    """'keyword' if the name is a reserved word of that language, else 'predeclared'"""
-    return "keyword" if name in LANG_KEYWORDS[lang] else "predeclared"
+    """'keyword' if the name is a reserved word of that language (or a decorated spelling of one), else 'predeclared'"""
+    if name in LANG_KEYWORDS[lang]:
+        return "keyword"
+    # decorated spellings are judged for the one backend that normalises identifiers (JS camel-casing); elsewhere they are
+    # ordinary identifiers (or implementation-reserved ones such as `_Bool`, which stay in the recorded-only class)
+    if lang == "js" and name in _DECORATED_JS and name not in LANG_PREDECL[lang]:
+        return "keyword"
+    return "predeclared"
+
+
+_DECORATED_JS = {d for n in JS_KEYWORDS for d in decorated(n)}
 
 
 # pub struct X; and fn parameter X: a unit struct named like a parameter makes the parameter a pattern -> probe the roles separately
